@@ -1,6 +1,6 @@
 use super::dynamic_constraints_encoder::DynamicConstraintsEncoder;
 use crate::{
-    aa::{AAFramework, Argument, Semantics},
+    aa::{AAFramework, Argument, ArgumentSet, Semantics},
     sat::SatSolver,
     utils::LabelType,
 };
@@ -36,6 +36,8 @@ where
 {
     buffer: Vec<DynamicsEvent<T>>,
     next_to_encode: Cell<usize>,
+    /// The framework as it will be once the buffer is replayed; used to validate updates eagerly.
+    buffered_af: AAFramework<T>,
     encoder: DynamicConstraintsEncoder,
 }
 
@@ -49,27 +51,39 @@ where
         BufferedDynamicConstraintsEncoder {
             buffer: Vec::new(),
             next_to_encode: Cell::new(0),
+            buffered_af: AAFramework::new_with_argument_set(ArgumentSet::new_with_labels(&[])),
             encoder,
         }
     }
 
     pub fn buffer_new_argument(&mut self, label: T) {
+        if self.buffered_af.argument_set().get_argument(&label).is_ok() {
+            return;
+        }
+        self.buffered_af.new_argument(label.clone());
         self.buffer.push(DynamicsEvent::NewArgument(label))
     }
 
     pub fn buffer_remove_argument(&mut self, label: &T) -> Result<()> {
+        self.buffered_af.remove_argument(label)?;
         self.buffer
             .push(DynamicsEvent::RemoveArgument(label.clone()));
         Ok(())
     }
 
     pub fn buffer_new_attack(&mut self, from: &T, to: &T) -> Result<()> {
+        let n_attacks = self.buffered_af.n_attacks();
+        self.buffered_af.new_attack(from, to)?;
+        if self.buffered_af.n_attacks() == n_attacks {
+            return Ok(());
+        }
         self.buffer
             .push(DynamicsEvent::NewAttack(from.clone(), to.clone()));
         Ok(())
     }
 
     pub fn buffer_remove_attack(&mut self, from: &T, to: &T) -> Result<()> {
+        self.buffered_af.remove_attack(from, to)?;
         self.buffer
             .push(DynamicsEvent::RemoveAttack(from.clone(), to.clone()));
         Ok(())
